@@ -80,19 +80,18 @@ def pad2d(array, Q=2, value=0, mode='constant', out_shape=None):
             if isinstance(out_shape, int):
                 out_shape = [out_shape]*array.ndim
 
-        shape_diff = [o-i for o, i in zip(out_shape, in_shape)]
+        # sample n//2 of the input is the origin and must land on sample N//2
+        # of the output, for every combination of odd and even n, N
+        left = [o//2 - i//2 for o, i in zip(out_shape, in_shape)]
         pad_shape = []
-        for d in shape_diff:
-            divby2 = d//2
-            lcl = (d-divby2, divby2)  # 13 => 6; (7,6) correct; 12 => 6; (6,6) correct
-            pad_shape.append(lcl)
+        for l, o, i in zip(left, out_shape, in_shape):  # NOQA -- l ambiguous
+            pad_shape.append((l, o-i-l))
 
         if mode == 'constant':
             # TODO: clean this garbage up, the code here shouldn't be completely
             # non common mode the way it is
 
-            dbytwo = [math.ceil(d/2) for d in shape_diff]
-            slcs = tuple((slice(d, d+s) for d, s in zip(dbytwo, in_shape)))
+            slcs = tuple((slice(d, d+s) for d, s in zip(left, in_shape)))
             out = np.zeros(out_shape, dtype=array.dtype)
             if value != 0:
                 out += value
